@@ -37,6 +37,7 @@ def parseStep (s : String) : Option Step :=
     | ["i", a] => (parseAddrs a).bind fun v => mk (.lookupItem v false)
     | ["w", a] => (parseAddrs a).bind fun v => mk (.lookupItem v true)
     | ["e"] => mk (.advance 0)          -- an inline service error is filtered out: nothing happens
+    | ["E"] => mk (.advance 0)          -- marker of connection-shaped histories: no handler call
     | ["d"] => mk .lookupEnd
     | ["n"] => mk .lookupPoll
     | _ => none
